@@ -61,8 +61,7 @@ def run(ctx):
         # design level: the fix's order satisfies the property at every crash point and under every
         # single (thorough: double) call failure; the current order does not -- its leads are exported
         cur = os.path.join(ctx.scratch, "design_current.ndjson")
-        ctx.tlc("fs", "FmtCrash", "FmtCrash_fixed_%s.cfg" % ctx.tier, cases_path=scen, timeout_s=900,
-                workers=workers, coverage=(ctx.tier == "thorough"))
+        ctx.tlc("fs", "FmtCrash", "FmtCrash_fixed_%s.cfg" % ctx.tier, cases_path=scen, timeout_s=900, workers=workers)
         ctx.tlc("fs", "FmtCrash", "FmtCrash_current_%s.cfg" % ctx.tier, cases_path=cur, timeout_s=900, workers=workers)
         leads_fixed, nf = lead_sigs(scen)
         leads_cur, nc = lead_sigs(cur)
@@ -101,10 +100,12 @@ def run(ctx):
         # a real violation is still reported by finish(); but the run cannot be called conclusive when the
         # model and the real process disagree (trace not explained, lead not reproduced, state mismatch)
         ctx.notes += lines[:10]
-        if not ctx.viol:
+        known = core.load_known(ctx.pid)
+        unlisted = [s for s in ctx.viol if core.match_known(known, s) is None]
+        if not unlisted:
             raise core.Inconclusive("model and real process disagree (%d problems), e.g.\n%s" % (
                 len(lines), "\n".join(lines[:5])))
-        ctx.log("model/real disagreements next to real violations: %d (see notes)" % len(lines))
+        ctx.log("model/real disagreements next to unlisted real violations: %d (see notes)" % len(lines))
     real = sorted(ctx.viol.keys())
     ctx.extra["confirmed_signatures"] = real
     ctx.exhaustive = True
